@@ -104,6 +104,8 @@ def run_case(rec, Kx, Ky, N, per, orient, axis, op, target, ri, li, seed, pre=No
     rec.case((Kx, Ky, N, per, orient, axis, op, target, ri, li), pads and linked_on_axis, sample=case)
     for kd in set(kinds):
         rec.counters["kind:%d%d%d" % (kd[0], int(kd[1]), int(kd[2]))] += 1
+    if ri % 2:
+        table = {f: dict(reversed(list(table[f].items()))) for f in reversed(list(table))}
     try:
         g = make_grid(D.nf, N, table if any(table[f] for f in table) else None, rule, fv)
     except Exception as e:
